@@ -786,6 +786,31 @@ def mech_of(clause, ast):
   return clause + (":" + "+".join(sorted(core_feats or f)) if (core_feats or f) else "")
 
 
+def _ruby_below_span(ast):
+  """True when some cue has a <ruby> inside another tag or after an inline timestamp, i.e. where the reader has a span
+  open and would have to put the ruby container inside it."""
+  for it in ast["items"]:
+    if it["k"] != "cue":
+      continue
+    ts_seen = False
+    for n, _depth, parents in G.iter_nodes(it["body"]):
+      if n["t"] == "ts":
+        ts_seen = True
+      elif n["t"] == "tag" and n["name"] == "ruby" and (parents or ts_seen):
+        return True
+  return False
+
+
+def known_finding(clause, what, ast):
+  """Exact classifiers of recorded findings: one predicate per mechanism, evaluated on the clause, the exception and
+  the structure of the (minimised) witness - never on values."""
+  if (clause == "reader-raises:TypeError@model.push_child" and "Children of span must be span or br instances" in what
+      and _ruby_below_span(ast)):
+    # the canonical model only allows Ruby as a child of P (model.Span.push_child rejects it)
+    return "D-VTT-RUBY-IN-SPAN"
+  return None
+
+
 class Reporter:
   """De-duplicates findings per shard: a finding whose file's features include those of an already minimised witness of
   the same clause is presumed to be the same mechanism and only counted."""
@@ -793,7 +818,7 @@ class Reporter:
 
   def __init__(self, ctx):
     self.ctx = ctx
-    self.known = {}      # clause -> list of (frozenset(features), mech)
+    self.known = {}      # clause -> list of (frozenset(features), mech, violation-count key)
     self.shrinks = 0
     self.queue = {}     # (clause, features) -> [first finding, its (restricted) AST, multiplicity]
 
@@ -804,7 +829,8 @@ class Reporter:
     clause = finding["clause"]
     if ctx.replay_mode:
       ctx.violation(mech_of(clause, ast), f"{finding['what']} | input {text!r}",
-                    {"text": text, "ast": ast, "clause": clause, "config": finding.get("config")})
+                    {"text": text, "ast": ast, "clause": clause, "config": finding.get("config")},
+                    finding=known_finding(clause, finding["what"], ast))
       return
     sub = ast
     if finding.get("cue") is not None:
@@ -834,10 +860,10 @@ class Reporter:
     ctx = self.ctx
     order = sorted(self.queue.items(), key=lambda kv: (len(kv[0][1]), sorted(kv[0][1]), kv[0][0]))
     for (clause, feats), (finding, sub, mult) in order:
-      hit = next((mech for kf, mech in self.known.get(clause, []) if kf <= feats), None)
+      hit = next(((mech, key) for kf, mech, key in self.known.get(clause, []) if kf <= feats), None)
       if hit is not None:
-        ctx.count("presumed-same:" + hit, mult)
-        ctx.violation_counts[hit] += mult          # real findings of this clause; only their attribution is presumed
+        ctx.count("presumed-same:" + hit[0], mult)
+        ctx.violation_counts[hit[1]] += mult       # real findings of this clause; only their attribution is presumed
         continue
       if self.shrinks >= self.MAX_SHRINKS:
         ctx.count("not-minimised:" + clause, mult)
@@ -849,12 +875,13 @@ class Reporter:
                        only_config=finding.get("config"))
       what = next((x["what"] for x in f3 if x["clause"] == clause), finding["what"])
       mech = mech_of(clause, small)
-      self.known.setdefault(clause, []).append((frozenset(file_features(small)), mech))
+      fid = known_finding(clause, what, small)
+      self.known.setdefault(clause, []).append((frozenset(file_features(small)), mech, fid or mech))
       ctx.violation(mech, f"{what} | minimal input {stext!r}", {"text": stext, "ast": small, "clause": clause,
-                                                               "config": finding.get("config")})
+                                                               "config": finding.get("config")}, finding=fid)
       if mult > 1:
         ctx.count("presumed-same:" + mech, mult - 1)
-        ctx.violation_counts[mech] += mult - 1
+        ctx.violation_counts[fid or mech] += mult - 1
     self.queue = {}
 
 
@@ -961,7 +988,7 @@ def _run(ctx, rep, params):
       elif mode == 1:
         opts = {"id_kw": True, "ncues": [2, 3]}
       elif mode == 2:
-        opts = {"ruby_in_tag": True, "tag_in_ruby": True, "ncues": [1, 2], "p_tags": 1.0}
+        opts = {"ruby_in_tag": True, "tag_in_ruby": True, "p_tag_in_ruby": 0.8, "p_ruby_run": 0.6, "ncues": [1, 2], "p_tags": 1.0}
       elif mode == 3:
         opts = {"rt_outside": True, "ncues": [1, 2]}
       else:
